@@ -725,6 +725,8 @@ inline void common_tags(vh::Case &c, const Cfg &cfg, const History &h)
     c.tag("export-slow(>=3ms)");
   if (h.rs.forced_switches)
     c.tag("quantum-switch");
+  if (h.rs.stalls)
+    c.tag("long-stall");
   int total = 0;
   for (auto &r : h.produced)
     total += 1;
